@@ -6,6 +6,7 @@ import Liquid.ExprParse
 import Liquid.Std
 import Liquid.Call
 import Liquid.Filters.Num
+import Liquid.Filters.Str
 /-!
 # Line-protocol driver (DESIGN §5.1): one case per line in, one canonical result line out.
 -/
@@ -143,4 +144,7 @@ def runCase (line : String) : String :=
     match parseParamTy t, GoVal.parse v with
     | some ty, some x => showValRes (convert x ty)
     | _, _ => "unmodelled parse"
+  | "strf" :: name :: recv :: args => StrF.runStrf name recv args
+  | "strfv" :: name :: recv :: args => StrF.runStrfv name recv args
+  | ["strfsj", recv, sep] => StrF.runStrfsj recv sep
   | _ => "bad-op"
